@@ -503,14 +503,14 @@ fn alphabet(full: bool, with_idx: bool) -> Vec<Call> {
     a
 }
 
-fn scripts_for(ctx: &Ctx, ik: IK, depth_full: usize, depth_red: usize, nrandom: usize, seed_mix: u64) -> Vec<(Vec<Call>, Term)> {
+fn scripts_for(ctx: &Ctx, ik: IK, depth_full: usize, depth_red: usize, nrandom: usize, seed_mix: u64, light: bool) -> Vec<(Vec<Call>, Term)> {
     let with_idx = matches!(ik, IK::Col(_) | IK::ColMut(_));
     let mut out: Vec<(Vec<Call>, Term)> = vec![];
     let full = alphabet(true, with_idx);
     let red = alphabet(false, with_idx && false);
     // depth 0 and 1: all terms (under Miri: one rotating term per script)
     let mut h = 0usize;
-    if ctx.scale == Scale::Miri {
+    if ctx.scale == Scale::Miri || light {
         for t in TERMS {
             out.push((vec![], t));
         }
@@ -642,7 +642,7 @@ fn run_iter_prop(ctx: &mut Ctx, prop: &'static str) {
                         }
                         continue;
                     }
-                    let scripts = scripts_for(ctx, ik, depth_full, depth_red, nrandom, ctx.cur_idx);
+                    let scripts = scripts_for(ctx, ik, depth_full, depth_red, nrandom, ctx.cur_idx, false);
                     let mut okc = 0u64;
                     for (script, term) in &scripts {
                         if run_one(ctx, prop, (pc, pr), win, rk, ik, &ScriptRun { script, term: *term }) {
@@ -676,6 +676,71 @@ fn run_iter_prop(ctx: &mut Ctx, prop: &'static str) {
                                 ctx.nontrivial(("C09rej", pc, pr, win, n, c));
                             }
                         }
+                    }
+                }
+            }
+        }
+    }
+    // larger parents: sampled windows, depth-1 scripts with a rotating terminal plus random scripts
+    if ctx.scale == Scale::Native {
+        let parents = crate::wl_insrem::big_shapes(ctx, 8);
+        for (pi, (pc, pr)) in parents.into_iter().enumerate() {
+            let mut rng = Rng::from_parts(ctx.seed, pi as u64, 88);
+            let mut wins: Vec<Win> = vec![((0, 0), (pc, pr))];
+            for _ in 0..3 {
+                let s0 = rng.below(pc);
+                let s1 = rng.below(pr);
+                wins.push(((s0, s1), (rng.range(s0 + 1, pc), rng.range(s1 + 1, pr))));
+            }
+            for win in wins {
+                let (s, e) = win;
+                let wc = e.0 - s.0;
+                for rk in [RK::Owned, RK::View, RK::ViewMut, RK::ViewMutNested, RK::ViewOfView] {
+                    if rk == RK::Owned && win != ((0, 0), (pc, pr)) {
+                        continue;
+                    }
+                    let can_mut = matches!(rk, RK::Owned | RK::ViewMut | RK::ViewMutNested);
+                    let mut iks: Vec<IK> = vec![];
+                    match prop {
+                        "C08" => {
+                            iks.push(IK::Rows);
+                            if can_mut {
+                                iks.push(IK::RowsMut);
+                            }
+                        }
+                        "C09" => {
+                            for c in [0, wc / 2, wc - 1] {
+                                iks.push(IK::Col(c));
+                                if can_mut {
+                                    iks.push(IK::ColMut(c));
+                                }
+                            }
+                        }
+                        _ => {
+                            iks.push(IK::Cells);
+                            if can_mut {
+                                iks.push(IK::CellsMut);
+                            }
+                        }
+                    }
+                    for ik in iks {
+                        if !ctx.case(|| format!("{} big parent={}x{} win={:?} recv={:?} iter={:?}", prop, pc, pr, win, rk, ik)) {
+                            if ctx.done() {
+                                return;
+                            }
+                            continue;
+                        }
+                        let scripts = scripts_for(ctx, ik, 1, 0, 60, ctx.cur_idx, true);
+                        let mut okc = 0;
+                        for (script, term) in &scripts {
+                            if run_one(ctx, prop, (pc, pr), win, rk, ik, &ScriptRun { script, term: *term }) {
+                                okc += 1;
+                            }
+                        }
+                        if okc == scripts.len() {
+                            ctx.nontrivial((prop, "big", pc, pr, win, rk, ik));
+                        }
+                        ctx.count("scripts", scripts.len() as u64);
                     }
                 }
             }
